@@ -28,7 +28,8 @@ func init() {
 			"!HasFieldError; (path-ctx) resolver/middleware calls and error reports of a field function are dominated by WithFieldContext(fc), list elements run under a FieldContext whose Index points at the " +
 			"per-iteration index, each argument is coerced under WithPathContext(NewPathWithField(k)) for the same k it was read with; (directive-chain) directive closures form a chain in which each passes exactly " +
 			"its predecessor as `next`, the innermost is the resolver/unmarshal closure and the outermost is invoked exactly once; (layout-agreement) Exec, Complexity, Schema, processDeferredGroup, " +
-			"introspectSchema/Type and the executionContext struct are AST-identical between the single-file and follow-schema layouts.",
+			"introspectSchema/Type and the executionContext struct are AST-identical between the single-file and follow-schema layouts; (selections-private) the sub-selection merged for a response key reached through " +
+			"several fragments is only ever appended to itself, never aliased to a slice of the parsed document.",
 		NotDecided:  "that responses equal the reference execution algorithm: field merging in CollectFields, @skip/@include evaluation, response-key order, __typename values, abstract-type dispatch — value-level",
 		Assumptions: []string{"naming contract of generated functions (_Type, _Type_field, field_T_f_args) is used only to find anchors, never as the verdict"},
 	})
@@ -41,6 +42,37 @@ func runC01(c *Ctx) {
 	c01PathCtx(c)
 	c01DirectiveChain(c)
 	c01Layout(c)
+	c01SelectionsPrivate(c)
+}
+
+// c01SelectionsPrivate: the merged sub-selection of a collected field is a slice private to that CollectFields call.  Fields
+// with the same response key reached through different fragments are merged by appending to CollectedField.Selections; if
+// that slice ever is the parsed document's own slice, the append writes into the spare capacity of the shared AST and the
+// sub-selections merged for one concrete type / one request show up in another's (same rule as C07/ast-immutable, which
+// states the cross-request consequence).
+func c01SelectionsPrivate(c *Ctx) {
+	c.R.Rule("selections-private", "every assignment of CollectedField.Selections in package graphql is append(<that same Selections or nil>, ...): the merged selection set never aliases a slice of the parsed document", 3)
+	n := 0
+	for _, fn := range c.moduleFuncs(func(p string) bool { return p == pkgGraphql }) {
+		for _, b := range fn.Blocks {
+			for _, in := range b.Instrs {
+				st, ok := in.(*ssa.Store)
+				if !ok {
+					continue
+				}
+				if ok2, key, why := selectionsStore(c, fn, st); ok2 {
+					n++
+					if why != "" {
+						why += " — fields merged across fragments and type conditions receive another position's sub-selections"
+					}
+					c.R.Check(why == "", key, c.ipos(st), "extended from itself", why)
+				}
+			}
+		}
+	}
+	if n < 3 {
+		c.R.Fail("selections-private found only %d assignments of CollectedField.Selections", n)
+	}
 }
 
 func isNullGlobal(v ssa.Value) bool {
